@@ -165,6 +165,20 @@ def do_step(step, objs):
             objs.append(obj)
             # "bare" constructions are not observed: the object is pristine until the first accessor call of the history
             return "%s:%s:%s" % (op, ver, step[2]), ("constructed" if len(step) > 3 and step[3] == "bare" else dig(observe(obj, ver))), "-", len(objs) - 1
+        if op == "copy":
+            k, how = step[1], step[2]
+            if k >= len(objs) or objs[k] is None:
+                return "copy:no-object-%d" % k, "no-object", "-", None
+            import pickle
+            src = objs[k]
+            ver = {CVSS2: "2", CVSS3: "3", CVSS4: "4"}[type(src)]
+            try:
+                twin = [copy.copy, copy.deepcopy, lambda o: pickle.loads(pickle.dumps(o)), lambda o: pickle.loads(pickle.dumps(o, 2))][how](src)
+            except Exception:  # noqa - an object that cannot be copied that way: nothing is claimed, the original stands in
+                twin = src
+            objs.append(twin)
+            # a copy is labelled as a construction from the original's input: it must be the same function of that input (System.tla: Copy)
+            return "new:%s:%s" % (ver, esc(src.vector)), dig(observe(twin, ver)), "-", len(objs) - 1
         if op == "text":
             res = parse_cvss_from_text(unesc(step[1]))
             return "text:%s" % step[1], dig(sorted([type(r).__name__, r.vector, r.clean_vector()] for r in res)), "-", None
@@ -230,6 +244,8 @@ def run_steps(steps, ref=None):
                 p1 = "another-object-changed"
             if st[0] in ("new", "fromrh") and exc == "-":
                 made.append(st)
+            elif st[0] == "copy" and exc == "-" and res != "no-object":
+                made.append(["new"] + label.split(":", 2)[1:])
             out.append({"label": label, "res": res, "exc": exc, "g": globals_digest(), "out": cap.n - before, "proj0": p0, "proj": p1,
                         "on": made[st[1]] if st[0] == "call" and st[1] < len(made) else []})
     finally:
